@@ -268,8 +268,8 @@ def execute(prop: str, run_fn: Callable[[Sim], None], seed: int, tape: Sequence[
     res.prop, res.seed, res.index = prop, seed, index
     res.violation = None
     res.error = None
-    seams.begin_run(sim)
     try:
+        seams.begin_run(sim)
         run_fn(sim)
     except Violation as v:
         res.violation = {"clause": v.clause, "detail": v.detail}
